@@ -57,3 +57,14 @@ Theorem C17_defvjp_model_follows_source :
   /\ (forall d argnums, defvjp_route d argnums = gen_defvjp_route d argnums).
 Proof. exact (conj make_dict_follows_source defvjp_route_follows_source). Qed.
 Print Assumptions C17_defvjp_model_follows_source.
+
+(* ... and off core.defjvp / defjvp_argnum / def_linear / translate_vjp / translate_jvp: the forward-mode tables, and that a
+   None entry is the zero of the ARGUMENT's space in reverse mode and of the OUTPUT's space in forward mode *)
+Theorem C17_forward_model_and_none_entries_follow_source :
+  (forall argnums makers, jmake_dict argnums makers = gen_jmake_dict argnums makers)
+  /\ (forall d argnums, defjvp_route d argnums = gen_defjvp_route d argnums)
+  /\ (forall rid argnums, defjvp_argnum_route rid argnums = gen_defjvp_argnum_route rid argnums)
+  /\ (forall argnums, def_linear_route argnums = gen_def_linear_route argnums)
+  /\ none_vjp_zero = gen_none_vjp_zero /\ none_jvp_zero = gen_none_jvp_zero.
+Proof. exact forward_tables_follow_source. Qed.
+Print Assumptions C17_forward_model_and_none_entries_follow_source.
